@@ -137,11 +137,18 @@ func (db *DB) newMem(n int) (mem *memDB, err error) {
 	if db.journal == nil {
 		db.journal = journal.NewWriter(w)
 	} else {
+		// Reset points db.journal at the new file even when it reports an
+		// error, so the writer and the descriptor have to follow whatever
+		// happens to the old file: otherwise later records would go to the new
+		// file while Sync and the journal number still refer to the old one.
+		// Nothing is lost by carrying on: every record was flushed when it was
+		// written, so there is nothing pending, and what a failed Close may
+		// lose was never reported as synced.
 		if err := db.journal.Reset(w); err != nil {
-			return nil, err
+			db.logf("journal@rotate finishing @%d failed: %v", db.journalFd.Num, err)
 		}
 		if err := db.journalWriter.Close(); err != nil {
-			return nil, err
+			db.logf("journal@rotate closing @%d failed: %v", db.journalFd.Num, err)
 		}
 		db.frozenJournalFd = db.journalFd
 	}
